@@ -11,9 +11,11 @@ from soupsieve import css_parser as _cp   # noqa: E402
 FLAGS = re.I | re.X | re.U
 PAT_ID = re.compile(_cp.PAT_ID, FLAGS)
 PAT_CLASS = re.compile(_cp.PAT_CLASS, FLAGS)
+PAT_TAG = re.compile(_cp.PAT_TAG, FLAGS)
+PAT_PSEUDO_CLASS = re.compile(_cp.PAT_PSEUDO_CLASS, FLAGS)
 PAT_PSEUDO_DIR = re.compile(_cp.PAT_PSEUDO_DIR, FLAGS)
 PAT_PSEUDO_LANG = re.compile(_cp.PAT_PSEUDO_LANG, FLAGS)
 PAT_PSEUDO_CONTAINS = re.compile(_cp.PAT_PSEUDO_CONTAINS, FLAGS)
 # which method receives the matches of which token (the `key` parse_selectors dispatches on)
-DISPATCH = {'parse_class_id': ('id', 'class'), 'parse_pseudo_dir': ('pseudo_dir',), 'parse_pseudo_lang': ('pseudo_lang',),
+DISPATCH = {'parse_class_id': ('id', 'class'), 'parse_tag_pattern': ('tag',), 'parse_pseudo_class': ('pseudo_class',), 'parse_pseudo_dir': ('pseudo_dir',), 'parse_pseudo_lang': ('pseudo_lang',),
             'parse_pseudo_contains': ('pseudo_contains',)}
